@@ -310,11 +310,13 @@ def memoized_traverse(fn: MemoizedTraverseFn, structure):
     del current_path
     key = id(value)
     if key in memo:
-      return memo[key]
+      return memo[key][1]
     else:
       output = yield from fn(all_paths, value)
       if daglish.is_memoizable(value):
-        memo[key] = output
+        # Keep `value` alive, so that its id is not reused by another object
+        # (e.g. a temporary created by a flatten function) during traversal.
+        memo[key] = (value, output)
       return output
 
   return traverse_with_all_paths(wrap_with_memo, structure)
